@@ -200,11 +200,18 @@ func c17Fill(e *Env) {
 		// where the slot is obtained inside a nested block, that block's statement list is the scope
 		scope := fi.Decl.Body.List
 		ast.Inspect(fi.Decl.Body, func(nd ast.Node) bool {
-			if blk, ok := nd.(*ast.BlockStmt); ok {
-				for _, s2 := range blk.List {
-					if as, ok := s2.(*ast.AssignStmt); ok && len(as.Lhs) == 2 && usedVar(info, as.Lhs[1]) == kv {
-						scope = blk.List
-					}
+			var list []ast.Stmt
+			switch blk := nd.(type) {
+			case *ast.BlockStmt:
+				list = blk.List
+			case *ast.CaseClause:
+				list = blk.Body
+			case *ast.CommClause:
+				list = blk.Body
+			}
+			for _, s2 := range list {
+				if as, ok := s2.(*ast.AssignStmt); ok && len(as.Lhs) == 2 && usedVar(info, as.Lhs[1]) == kv {
+					scope = list
 				}
 			}
 			return true
